@@ -22,7 +22,9 @@ STMTS = [
     "if a then select 1; end if", "use db", "commit", "alter table t add column b int",
     "create procedure q() begin select 1; select 2; end", "merge into t using s on t.a = s.a when matched then delete",
 ]
-SEPS = [";", ";;", "; \n", " ;\n", ";\n;\n", "; /**/ ", " /**/; ", "; /* c */ ", ";/**/\n/* d */", " -- c\n; # d\n"]
+SEPS = [";", ";;", "; \n", " ;\n", ";\n;\n", "; /**/ ", " /**/; ", "; /* c */ ", ";/**/\n/* d */", " -- c\n; # d\n",
+        # an empty statement that holds nothing but a comment: two separators with a comment between them
+        "; /* x */ ;", ";\n-- note\n;", "; # c\n ;\n", " ; /**/ ; /* y */ ; "]
 DELIMS = ["$$", "//", "|", "@@", "GO", "$$$"]
 WORDS = ['delimiter', 'DELIMITER', 'Delimiter', ' delimiter ', '$$', '//', ';', 'select 1', 'select 2', '\n', '\n\n', ' ',
          '  ', "'a;b'", '$$\n', '$$ \n', '// \n\n', 'x', 'delimiterx', 'xdelimiter', ';;', '\t', '\r\n']
